@@ -9,6 +9,10 @@ pub mod roles;
 /// Instructions;
 pub mod instructions;
 
+/// Verification-only hooks (thin wrappers, no logic).
+#[cfg(gmsol_verif)]
+pub mod verif_hooks;
+
 use gmsol_store::{utils::CpiAuthenticate, CoreError};
 use instructions::*;
 
